@@ -162,6 +162,10 @@ type affPath struct {
 	blocks []*ssa.BasicBlock
 	ret    *ssa.Return
 	left   bool // the path left the region (region mode) instead of returning
+	// segment mode: the path ended by entering the loop head endHead from endPred
+	endHead, endPred *ssa.BasicBlock
+	notes            map[string][]aff    // rule-specific bags, filled by affEval.hook
+	strs             map[string][]string // rule-specific bags
 }
 
 func (p *affPath) clone() *affPath {
@@ -177,6 +181,18 @@ func (p *affPath) clone() *affPath {
 	q.facts = append([]Fact(nil), p.facts...)
 	q.parts = append([]aff(nil), p.parts...)
 	q.blocks = append([]*ssa.BasicBlock(nil), p.blocks...)
+	if p.notes != nil {
+		q.notes = map[string][]aff{}
+		for k, v := range p.notes {
+			q.notes[k] = append([]aff(nil), v...)
+		}
+	}
+	if p.strs != nil {
+		q.strs = map[string][]string{}
+		for k, v := range p.strs {
+			q.strs[k] = append([]string(nil), v...)
+		}
+	}
 	return q
 }
 
@@ -209,6 +225,8 @@ type affEval struct {
 	n       int
 	visit   func(p *affPath)
 	over    bool
+	heads   map[*ssa.BasicBlock]bool                 // segment mode: paths stop when they enter a loop head
+	hook    func(p *affPath, ins ssa.Instruction) // rule-specific bookkeeping, after the standard step
 }
 
 func (e *affEval) moneyOp(call *ssa.Call) string {
@@ -230,6 +248,13 @@ func (e *affEval) of(p *affPath, v ssa.Value) aff {
 		return a
 	}
 	switch x := v.(type) {
+	case *ssa.Const:
+		if n, ok := constInt(x); ok && x.Value != nil {
+			if n == 0 {
+				return affZero()
+			}
+			return aff{"1": n}
+		}
 	case *ssa.ChangeType:
 		return e.of(p, x.X)
 	case *ssa.Convert:
@@ -245,7 +270,23 @@ func (e *affEval) of(p *affPath, v ssa.Value) aff {
 }
 
 func (e *affEval) step(p *affPath, ins ssa.Instruction) {
+	defer func() {
+		if e.hook != nil {
+			e.hook(p, ins)
+		}
+	}()
 	switch x := ins.(type) {
+	case *ssa.BinOp:
+		// integer index arithmetic: i + c, i - c
+		if b, ok := x.Type().Underlying().(*types.Basic); ok && b.Info()&types.IsInteger != 0 && (x.Op == token.ADD || x.Op == token.SUB) {
+			if n, isC := constInt(x.Y); isC {
+				k := int64(1)
+				if x.Op == token.SUB {
+					k = -1
+				}
+				p.val[x] = e.of(p, x.X).plus(aff{"1": n}, k)
+			}
+		}
 	case *ssa.Call:
 		switch e.moneyOp(x) {
 		case "Add":
@@ -389,6 +430,11 @@ func (e *affEval) walk(p *affPath, b *ssa.BasicBlock, pred *ssa.BasicBlock, visi
 			e.emit(q)
 			continue
 		}
+		if e.heads != nil && e.heads[succ] {
+			q.endHead, q.endPred = succ, b
+			e.emit(q)
+			continue
+		}
 		e.walk(q, succ, b, visits)
 	}
 }
@@ -411,9 +457,42 @@ func (e *affEval) run(from *ssa.BasicBlock) bool {
 	if from == nil {
 		from = e.fn.Blocks[0]
 	}
-	p := &affPath{val: map[ssa.Value]aff{}, cells: map[string]aff{}}
+	p := &affPath{val: map[ssa.Value]aff{}, cells: map[string]aff{}, notes: map[string][]aff{}, strs: map[string][]string{}}
+	// segment mode, starting at a loop head: its phis are arbitrary (named after themselves)
+	if e.heads != nil && e.heads[from] {
+		for _, ins := range from.Instrs {
+			phi, ok := ins.(*ssa.Phi)
+			if !ok {
+				break
+			}
+			p.val[phi] = affSym(descr(phi, 0))
+		}
+	}
 	e.walk(p, from, nil, map[*ssa.BasicBlock]int{})
 	return !e.over
+}
+
+// phiIn: the value a phi of the head receives at the end of a segment.
+func (e *affEval) phiIn(p *affPath, phi *ssa.Phi) (aff, bool) {
+	for i, pb := range phi.Block().Preds {
+		if pb == p.endPred {
+			return e.of(p, phi.Edges[i]), true
+		}
+	}
+	return nil, false
+}
+
+// loopHeads: blocks that are the target of a back edge.
+func loopHeads(fn *ssa.Function) map[*ssa.BasicBlock]bool {
+	h := map[*ssa.BasicBlock]bool{}
+	for _, b := range fn.Blocks {
+		for _, s := range b.Succs {
+			if s.Dominates(b) {
+				h[s] = true
+			}
+		}
+	}
+	return h
 }
 
 // impliesPositive: does one of the guards of the path say that the form is > 0 ?
